@@ -1,9 +1,12 @@
-(* C16 — Restore stays inside its destination.  The part that is logic: which entries of
-   a (possibly stitched) listing restore goes on to create.  The file-system calls
-   themselves (symlink_metadata / lutimes / lchown, O_NOFOLLOW behaviour) are observed by
-   the sandbox check, not modelled. *)
+(* C16 — Restore stays inside its destination.  Two parts that are logic: which entries of
+   a (possibly stitched) listing restore goes on to create (the guard), and which paths its
+   file-system calls name given what the destination holds (Dest.v: a call "resolves through
+   a symlink" when a directory above its last component, or -- for the calls that follow it
+   -- the last component itself, is a link in the destination; such a call would act outside).
+   Modes, owners, times and the kernel's own resolution are observed by the sandbox check,
+   not modelled. *)
 From Coq Require Import List NArith.
-From CV Require Import Base.Str Apath ApathP Entry Valid ValidP.
+From CV Require Import Base.Str Apath ApathP Entry Valid ValidP Dest DestP.
 Local Open Scope N_scope.
 
 (* In the list of entries restore goes on to create, no entry lies strictly beneath an
@@ -31,3 +34,72 @@ Proof. exact guard_links_tree_identity. Qed.
 Print Assumptions C16_guard_is_identity_on_trees.
 
 (* [is_prefix_of] is exactly component-wise ancestry (Props/C12.v). *)
+
+(* ------------------------------------------------------------------------- *)
+(* The destination side.  [tree_like f]: whatever exists in the destination lies beneath
+   existing things that are not symlinks -- true of every real directory ([dir_tree]). *)
+
+(* With the overwrite option, from ANY contents of the destination (links, files where
+   directories are expected, anything a directory can hold) and for ANY listing (no order,
+   validity or distinctness assumed), no call restore makes -- creating, replacing,
+   looking, or the deferred directory metadata at the end -- resolves through a symlink. *)
+Theorem C16_overwrite_never_writes_through_a_link :
+  forall (content_of : entry -> bytes) (f : fs) (es : list entry) (s : dstate),
+    tree_like f ->
+    restore_into content_of true f es = Some s -> d_esc s = 0.
+Proof. exact overwrite_never_resolves_through_a_link. Qed.
+Print Assumptions C16_overwrite_never_writes_through_a_link.
+
+Theorem C16_every_directory_is_tree_like : forall f : fs, dir_tree f -> tree_like f.
+Proof. exact dir_tree_tree_like. Qed.
+Print Assumptions C16_every_directory_is_tree_like.
+
+(* Without it restore starts from the empty destination: the same, for every listing of
+   valid, distinct paths (as every stitched listing is: Props/C08.v, strictly ordered). *)
+Theorem C16_fresh_restore_never_writes_through_a_link :
+  forall content_of es s,
+    (forall e, In e es -> is_valid (e_apath e) = true) ->
+    NoDup (map e_apath es) ->
+    restore_into content_of false [] es = Some s -> d_esc s = 0.
+Proof. exact fresh_never_resolves_through_a_link. Qed.
+Print Assumptions C16_fresh_restore_never_writes_through_a_link.
+
+(* ... and distinctness is needed: a listing that names one path twice, as a symlink and
+   then as a file, is written through the link just made. *)
+Theorem C16_duplicate_path_refuted :
+  exists content_of es s,
+    (forall e, In e es -> is_valid (e_apath e) = true) /\
+    restore_into content_of false [] es = Some s /\ d_esc s <> 0.
+Proof. exact fresh_duplicate_path_refuted. Qed.
+Print Assumptions C16_duplicate_path_refuted.
+
+(* A non-empty destination is refused (and, the model being a function, untouched). *)
+Theorem C16_nonempty_destination_refused :
+  forall content_of f es, f <> [] -> restore_into content_of false f es = None.
+Proof. exact nonempty_destination_refused. Qed.
+Print Assumptions C16_nonempty_destination_refused.
+
+(* The loop as it was before "fix: restore with overwrite wrote through symlinks already in
+   the destination": one version restored over another goes through the first one's link. *)
+Theorem C16_unchecked_overwrite_refuted :
+  exists content_of f es, d_esc (restore_into_unchecked content_of f es) <> 0.
+Proof. exact unchecked_loop_refuted. Qed.
+Print Assumptions C16_unchecked_overwrite_refuted.
+
+(* What restore reports as restored is there afterwards, in either mode, from any
+   destination the run accepts (a directory entry may find a regular file in its place:
+   create_dir_all's AlreadyExists is taken for success). *)
+Theorem C16_restored_entries_are_there :
+  forall content_of ow f es s e,
+    (forall e', In e' es -> is_valid (e_apath e') = true) ->
+    NoDup (map e_apath es) ->
+    restore_into content_of ow f es = Some s ->
+    In e es -> In (e_apath e) (d_done s) ->
+    (e_kind e = KFile -> node_at (d_fs s) (comps (e_apath e)) = Some (NFile (content_of e))) /\
+    (e_kind e = KSymlink ->
+       exists t, e_target e = Some t /\ node_at (d_fs s) (comps (e_apath e)) = Some (NLink t)) /\
+    (e_kind e = KDir ->
+       is_dir (node_at (d_fs s) (comps (e_apath e))) = true \/
+       is_file (node_at (d_fs s) (comps (e_apath e))) = true).
+Proof. exact restored_entries_are_there. Qed.
+Print Assumptions C16_restored_entries_are_there.
